@@ -1,4 +1,5 @@
 import Rustemo.Proofs.LexOk
+import Rustemo.Proofs.LayoutRTOrder
 import Rustemo.Proofs.CertSound
 import Rustemo.Props.Example
 /-!
@@ -11,8 +12,12 @@ both ends are the positions `posOf input offset`; a nonterminal's span runs from
 child to the end of its last child; an empty nonterminal has a zero-width span.
 `Pos.spec` is "line = 1 + newlines before the offset, column = bytes since the line start".
 
-Not proved here (decided by oracle + correspondence only): that token spans are ordered and an empty
-nonterminal lies between the neighbouring tokens; the GLR half (see known finding F20).
+`Tree.Ordered t` (`C13_lr_spans_ordered`): at every node the children's spans, in order, are disjoint,
+ascending and inside the node's span; so token spans are ordered and non-overlapping and an empty
+nonterminal (zero-width by `SpanOk`) lies between the end of what precedes it and the start of what
+follows it.
+
+Not proved here (decided by oracle + correspondence only): the GLR half (see known finding F20).
 -/
 namespace Rustemo.Props.C13
 open Rustemo
@@ -58,6 +63,28 @@ theorem C13_nonterminal_span (input : List Nat) (p : Nat) (sp : Span) (l : Optio
     (∀ f la, cs.toList.head? = some f → cs.toList.getLast? = some la →
         sp.s = f.span.s ∧ sp.e = la.span.e) ∧
     (cs.toList = [] → sp.s = sp.e) := h.2.2.2
+
+/-- **LR spans are ordered.**  Same hypotheses as `C13_lr_spans` (default string lexer, whitespace
+    skipping or a Layout rule, partial parsing on or off, every input): the returned tree is
+    `Ordered` — at every node `SibAsc (spans of the children) node.start node.end`: the first child
+    starts at or after the node's start, every child has start ≤ end, each child ends at or before
+    the start of the next, the last ends at or before the node's end (byte offsets). -/
+theorem C13_lr_spans_ordered (env : Env) (hc : env.custom = none) (hr : RecogOk env)
+    (hcert : Cert.noShiftStop env.t = true) (partialParse : Bool) (fuel : Nat) (ctx : Ctx)
+    (r : ParseResult) (h : parse env partialParse fuel = (ctx, .ok r)) :
+    r.tree.Ordered :=
+  parse_ordered env hc hr (noShiftStop_sound _ hcert) partialParse fuel ctx r h
+
+/-- what `Ordered` says at a node -/
+theorem C13_children_ordered (p : Nat) (sp : Span) (l : Option Slice) (cs : TreeList)
+    (h : (Tree.node p sp l cs).Ordered) : SibAsc cs.spans sp.s.pos sp.e.pos := h.1
+
+/-- what `SibAsc` says about two neighbours `x`, `y` among the children of a node spanning `[a, b]`:
+    in particular an empty child `y` (`y.s = y.e`) lies between the end of `x` and whatever follows -/
+theorem C13_neighbours (x y : Span) (rest : List Span) (a b : Nat) (h : SibAsc (x :: y :: rest) a b) :
+    a ≤ x.s.pos ∧ x.s.pos ≤ x.e.pos ∧ x.e.pos ≤ y.s.pos ∧ y.s.pos ≤ y.e.pos ∧ y.e.pos ≤ b := by
+  obtain ⟨h1, h2, h3, h4, h5⟩ := h
+  exact ⟨h1, h2, h3, h4, SibAsc.le h5⟩
 
 /-- non-vacuity: the hypotheses hold for a concrete run (`S: 'a' S | EMPTY` on "a a") -/
 example : Example.env.custom = none ∧ Cert.noShiftStop Example.env.t = true ∧
